@@ -144,6 +144,12 @@ func runC05(x *Exec) {
 			rs, es := c.Query(full + " FROM " + t + " ORDER BY k")
 			rn, en := c.Query(full + " FROM n ORDER BY k")
 			x.Check()
+			if es != nil && len(leakable) > 0 && strings.Contains(es.Error(), "NoSuchKey") {
+				// KF-14, worse form: the node object that leaked through the rolled-back (failed) COMMIT was marked
+				// clean by the failed flush and is referenced by a later version although it was never stored
+				x.Fail("C05-rollback-leak", "%s: after a rolled-back transaction a later commit refers to a node that was never stored: %v", when, es)
+				return false
+			}
 			if es != nil || en != nil {
 				x.Fail("C05-read-failed", "%s: s3db err=%v native err=%v", when, es, en)
 				return false
